@@ -1049,6 +1049,28 @@ Proof.
       cbn [filter]. now rewrite IH.
 Qed.
 
+(* the second XmlString::new of xml_safe is the identity: stored_text is the first one followed
+   by the removal of the two non-characters *)
+Lemma stored_text_is_filter s :
+  stored_text s = filter (fun c => negb (known_nonchar c)) (xmlstring_new s).
+Proof.
+  unfold stored_text, xml_safe.
+  set (x := xmlstring_new s).
+  assert (Hx : forall c, In c x -> xmlstring_keeps c = true).
+  { intros c Hc. apply (xmlstring_new_out s c Hc). }
+  destruct (existsb known_nonchar x) eqn:E.
+  - rewrite xmlstring_new_esc_free.
+    + rewrite filter_filter.
+      transitivity (filter (fun c => negb (known_nonchar c) && true) x).
+      * apply filter_ext_in. intros c Hc. rewrite (Hx c Hc). reflexivity.
+      * apply filter_ext_in. intros c _. apply andb_true_r.
+    + apply forallb_forall. intros c Hc. apply filter_In in Hc as [Hc _].
+      apply xmlstring_keeps_not_esc, Hx, Hc.
+  - symmetry. transitivity (filter (fun _ => true) x).
+    + apply filter_ext_in. intros c Hc. rewrite (existsb_false_In _ _ _ E Hc). reflexivity.
+    + clear. induction x as [|c l IH]; [reflexivity|]. cbn [filter]. now rewrite IH.
+Qed.
+
 (* ---- regression witnesses: quick-junit's XmlString::new ALONE (what nextest relied on before
    a19c0df) keeps U+FFFF, which is not an XML 1.0 Char *)
 Lemma xmlstring_alone_not_wellformed_witness :
